@@ -14,8 +14,9 @@
 (***************************************************************************)
 EXTENDS CompOps, TraceLib, FiniteSets
 VARIABLES gcount,     \* canonical k-mer -> occurrences in the counting input
-          base        \* index of the creset event of the current run
-tvars == <<l, gcount, base>>
+          base,       \* index of the creset event of the current run
+          nrows       \* rows of the current run consumed so far; -1 once its crows summary has been seen (or before any run)
+tvars == <<l, gcount, base, nrows>>
 
 BagAdd(b, k) == IF k \in DOMAIN b THEN [b EXCEPT ![k] = @ + 1]
                 ELSE [x \in (DOMAIN b) \cup {k} |-> IF x = k THEN 1 ELSE b[x]]
@@ -24,14 +25,15 @@ AllWindows(recs, k) == LET f[i \in 0..Len(recs)] == IF i = 0 THEN <<>>
                                                     ELSE f[i-1] \o CanonWindows(Classes(recs[i]), k)
                        IN f[Len(recs)]
 
-TInit == TrackInit /\ l = 1 /\ gcount = <<>> /\ base = 0
-TReset == /\ Is("creset")
+TInit == TrackInit /\ l = 1 /\ gcount = <<>> /\ base = 0 /\ nrows = 0 - 1
+TReset == /\ Is("creset") /\ nrows = 0 - 1
           /\ gcount' = BagOfSeq(AllWindows(Ev.crecs, Ev.k))
-          /\ base' = l /\ Consume
-TOther == /\ l <= Len(Rec)
-          /\ (Rec[l].ev \in {"crow", "crows"} /\ base > 0) \/ Rec[l].ev = "eof"
-          /\ Consume /\ UNCHANGED <<gcount, base>>
-TNext == TReset \/ TOther
+          /\ base' = l /\ nrows' = 0 /\ Consume
+\* rows arrive in file order; the run is closed by its crows summary
+TRow == Is("crow") /\ base > 0 /\ nrows >= 0 /\ Ev.i = nrows /\ nrows' = nrows + 1 /\ Consume /\ UNCHANGED <<gcount, base>>
+TRows == Is("crows") /\ base > 0 /\ nrows >= 0 /\ Ev.rows = nrows /\ nrows' = 0 - 1 /\ Consume /\ UNCHANGED <<gcount, base>>
+TEofEv == Is("eof") /\ nrows = 0 - 1 /\ Consume /\ UNCHANGED <<gcount, base, nrows>>
+TNext == TReset \/ TRow \/ TRows \/ TEofEv
 TSpec == TInit /\ [][TNext]_tvars
 
 RowVal(row, p) == LET hits == {j \in 1..(Len(row) \div 2) : row[2 * j - 1] = p}
